@@ -109,7 +109,8 @@ def run(C, R):
                 h0 = E.variant_known(path.facts, ('init', hloc))
                 if path.exit == 'panic':
                     pe = [e for e in path.events if e['k'] == 'panic']
-                    if h0 == ('eq', 'None') and pe and pe[-1].get('what') == 'unwrap(None)':
+                    # (expect / unwrap on the handle, or `let Some(x) = handle else { panic!(..) }`)
+                    if h0 == ('eq', 'None') and pe:
                         fp = first_primitive_call(path)
                         if fp is None:
                             saw_panic_none = True
@@ -128,8 +129,10 @@ def run(C, R):
                                fn['path'], shape[0], '.'.join(hp), hv, pc), '%s:%s' % (fn['file'], fn['line']),
                            {'trace': trace_summary(path)})
                 # R3 ordering on returning paths
+                needle = repr(('init', hloc))
                 chk = [i for i, e in enumerate(path.events)
-                       if (e['k'] == 'unwrap' and contains(e['val'], ('init', hloc)))]
+                       if (e['k'] == 'unwrap' and contains(e['val'], ('init', hloc)))
+                       or (e['k'] == 'assume' and needle in repr(e.get('expr')))]
                 fp = first_primitive_call(path)
                 if h0 == ('eq', 'Some') and chk and (fp is None or chk[0] < fp):
                     R.ok('C17.R3', '%s|handle checked first|%s' % (fn['path'], pc))
